@@ -266,6 +266,9 @@ func workerCmd(b *built, outDir string, w int, args ...string) *exec.Cmd {
 	}
 	cmd := exec.Command(bin, args...)
 	env := append(os.Environ(), "GEOSIM_HOT="+b.hotFile, "GEOSIM_CONSTS="+b.constFile)
+	if len(b.rep.Uncontrolled) > 0 {
+		env = append(env, "GEOSIM_UNCONTROLLED=1")
+	}
 	var e2 []string
 	for _, e := range env {
 		if strings.HasPrefix(e, "GORACE=") || strings.HasPrefix(e, "GOMAXPROCS=") {
@@ -310,17 +313,24 @@ func runBatch(cfg *config, b *built, outDir string) *batchResult {
 				if cfg.tier == "thorough" {
 					wd = "40"
 				}
+				wdLimit := 3
+				if blockingConstructs(b.rep) {
+					// the library contains waits the scheduler cannot own (Cond/
+					// WaitGroup .Wait(), channel operations): be quick to give up
+					// on controlled execution
+					wd, wdLimit = "5", 1
+				}
 				args := []string{"batch", "-watchdog", wd,
 					"-seed", fmt.Sprint(cfg.seed), "-worker", fmt.Sprint(w), "-tier", cfg.tier,
 					"-seconds", fmt.Sprintf("%.1f", left), "-first", fmt.Sprint(first),
 					"-out", outDir, "-sites", fmt.Sprint(b.nsites), "-tag", tag}
-				if myWatchdogs >= 3 {
+				if myWatchdogs >= wdLimit {
 					// the library blocks in ways the scheduler cannot own (it did so
 					// twice already): the rest of this worker's runs are uncontrolled
 					args = append(args, "-free")
 				}
 				cmd := workerCmd(b, outDir, w, args...)
-				if myWatchdogs >= 3 {
+				if myWatchdogs >= wdLimit {
 					for i, e := range cmd.Env {
 						if strings.HasPrefix(e, "GOMAXPROCS=") {
 							cmd.Env[i] = "GOMAXPROCS=4"
@@ -411,6 +421,16 @@ func runBatch(cfg *config, b *built, outDir string) *batchResult {
 	return res
 }
 
+func blockingConstructs(rep *InstrumentReport) bool {
+	for _, c := range rep.Uncontrolled {
+		switch c.What {
+		case ".Wait()", "channel send", "channel receive", "select", "select/comm clause":
+			return true
+		}
+	}
+	return false
+}
+
 func readJSON(path string, v interface{}) error {
 	b, err := os.ReadFile(path)
 	if err != nil {
@@ -462,11 +482,26 @@ func determinismTest(cfg *config, b *built, outDir string) (runs int, procs int,
 						cmd.Env[i] = "GOMAXPROCS=" + j.procs
 					}
 				}
+				// a trace process has no watchdog of its own: a library that blocks in
+				// ways the scheduler cannot own (sync.Cond, channels) would hang it
+				limit := 90 * time.Second
+				if cfg.tier == "thorough" {
+					limit = 300 * time.Second
+				}
+				if blockingConstructs(b.rep) {
+					limit = 20 * time.Second
+				}
+				timer := time.AfterFunc(limit, func() {
+					if cmd.Process != nil {
+						_ = cmd.Process.Kill()
+					}
+				})
 				out, err := cmd.Output()
+				timer.Stop()
 				mu.Lock()
 				defer mu.Unlock()
 				if err != nil {
-					problems = append(problems, fmt.Sprintf("trace worker %d GOMAXPROCS=%s: %v", j.w, j.procs, err))
+					problems = append(problems, fmt.Sprintf("trace worker %d GOMAXPROCS=%s: %v (killed after %v if it made no progress)", j.w, j.procs, err, limit))
 					return
 				}
 				outs[j] = string(out)
@@ -1026,9 +1061,15 @@ func runReplay(cfg *config, b *built, outDir string, kf *KnownFindings) int {
 	var outs []outcome
 	for k := 0; k < 2; k++ {
 		cmd := workerCmd(b, outDir, 3000+k, "replay", "-in", cfg.replay, "-sites", fmt.Sprint(b.nsites), "-repeat", repeat)
+		timer := time.AfterFunc(15*time.Minute, func() {
+			if cmd.Process != nil {
+				_ = cmd.Process.Kill()
+			}
+		})
 		out, err := cmd.Output()
+		timer.Stop()
 		if err != nil {
-			die2("replay subprocess failed: %v", err)
+			die2("replay subprocess failed or made no progress for 15 minutes: %v", err)
 		}
 		var o outcome
 		if err := json.Unmarshal(out, &o); err != nil {
